@@ -135,12 +135,69 @@ static int or_n, or_i;
 static unsigned long long clk;
 static const struct ans dflt = { 0, -1, -1, 1 };
 
+#ifdef STORE_PROBE
+/*
+ * C16 store probe: every packet buffer lives in one arena which is kept write-protected; each store into it faults,
+ * the handler samples the in-tracing-section flag as an asynchronous observer would at that very instant, lets the
+ * single instruction run (trap flag) and protects the arena again.  Stores made by the platform itself are not judged.
+ */
+#include <signal.h>
+#include <sys/mman.h>
+#include <ucontext.h>
+#define ARENA_LEN (1UL << 23)
+static uint8_t *arena; static size_t arena_used;
+static long n_stores, n_flag0, first_bad_call = -1, call_no;
+static volatile int plat_store;
+static void on_segv(int sig, siginfo_t *si, void *ucv)
+{
+	ucontext_t *uc = (ucontext_t *) ucv; uint8_t *a = (uint8_t *) si->si_addr; (void) sig;
+	if (a < arena || a >= arena + ARENA_LEN) { signal(SIGSEGV, SIG_DFL); return; }
+	if (!plat_store) {
+		n_stores++;
+		if (!sctx.parent.in_tracing_section) { n_flag0++; if (first_bad_call < 0) first_bad_call = call_no; }
+	}
+	mprotect(arena, ARENA_LEN, PROT_READ | PROT_WRITE);
+	uc->uc_mcontext.gregs[REG_EFL] |= 0x100;
+}
+static void on_trap(int sig, siginfo_t *si, void *ucv)
+{
+	ucontext_t *uc = (ucontext_t *) ucv; (void) sig; (void) si;
+	mprotect(arena, ARENA_LEN, PROT_READ);
+	uc->uc_mcontext.gregs[REG_EFL] &= ~0x100L;
+}
+static void probe_setup(void)
+{
+	struct sigaction sa;
+	arena = (uint8_t *) mmap(NULL, ARENA_LEN, PROT_READ, MAP_PRIVATE | MAP_ANONYMOUS, -1, 0);
+	if (arena == (uint8_t *) MAP_FAILED) exit(4);
+	memset(&sa, 0, sizeof(sa)); sa.sa_flags = SA_SIGINFO; sigemptyset(&sa.sa_mask);
+	sa.sa_sigaction = on_segv; sigaction(SIGSEGV, &sa, NULL);
+	sa.sa_sigaction = on_trap; sigaction(SIGTRAP, &sa, NULL);
+}
+static void probe_report(void) { fprintf(stderr, "STOREPROBE %%ld %%ld %%ld\n", n_stores, n_flag0, first_bad_call); }
+static void *buf_alloc(size_t n)
+{	/* fresh, zero-filled, 64-byte aligned slice of the arena (never reused) */
+	uint8_t *r = arena + arena_used; arena_used += (n + 63) / 64 * 64 + 64;
+	if (arena_used > ARENA_LEN) exit(5);
+	return r;
+}
+#define PLAT_STORE_BEGIN plat_store = 1
+#define PLAT_STORE_END plat_store = 0
+#define NEXT_CALL call_no++
+#else
+#define buf_alloc(n) calloc(1, (n))
+#define PLAT_STORE_BEGIN (void) 0
+#define PLAT_STORE_END (void) 0
+#define NEXT_CALL (void) 0
+#endif
+
 static struct ans pop(void) { if (or_i < or_n) return oracle[or_i++]; return dflt; }
 static void toggle(struct ans a) { if (a.toggle >= 0) %(prefix)senable_tracing(&sctx, a.toggle); }
 static void log_exit(int kind, int f0) { if (eager) { printf("5 %%d %%d %%d ", kind, f0, %(prefix)sis_in_tracing_section(&sctx)); fflush(stdout); } }
 static void log_cb(int kind) { printf("1 %%d %%d %%d ", kind, %(prefix)sis_in_tracing_section(&sctx), %(prefix)spacket_is_open(&sctx)); fflush(stdout); }
 static void ret(void)
 {
+	NEXT_CALL;
 	printf("3 %%u %%u %%u %%u %%u %%u %%d %%d %%d %%d %%llu ", sctx.parent.at, sctx.parent.packet_size,
 		sctx.parent.content_size, sctx.parent.off_content, sctx.parent.events_discarded,
 		sctx.parent.sequence_number, sctx.parent.packet_is_open, sctx.parent.in_tracing_section,
@@ -172,10 +229,10 @@ static void plat_close(void *d)
 		fflush(stdout);
 		if (a.newbuf >= 0) {
 			if (same_addr) {
-				memset(buf, 0, a.newbuf);
+				PLAT_STORE_BEGIN; memset(buf, 0, a.newbuf); PLAT_STORE_END;
 			} else {
 				/* the old buffer is deliberately leaked: exact-size heap blocks keep ASan precise */
-				buf = (uint8_t *) calloc(1, a.newbuf);
+				buf = (uint8_t *) buf_alloc(a.newbuf);
 			}
 			%(prefix)spacket_set_buf(&sctx, buf, a.newbuf);
 		}
@@ -196,6 +253,9 @@ int main(int argc, char **argv)
 	memset(&cbs, 0, sizeof(cbs));
 	/* the context memory is NOT zero-filled: whatever barectf_init() must establish, it has to establish itself */
 	memset(&sctx, 0xA5, sizeof(sctx));
+#ifdef STORE_PROBE
+	probe_setup();
+#endif
 	%(set_clock)s
 	cbs.is_backend_full = full_cb;
 	cbs.open_packet = plat_open;
@@ -205,6 +265,9 @@ int main(int argc, char **argv)
 	default: return 3;
 	}
 	printf("\n");
+#ifdef STORE_PROBE
+	probe_report();
+#endif
 	return 0;
 }
 '''
@@ -246,9 +309,9 @@ def make_glue(cfg, s, hists, prefix='barectf_', fprefix='barectf'):
             body.append('\tg_pc_%s = %s;' % (n, ca.lit(f, v)))
         if h.get('same_addr'):
             mx = max([h['buf']] + [o[2] for o in h['oracle'] if o[2] is not None])
-            body.append('\tsame_addr = 1; buf = (uint8_t *) calloc(1, %d);' % mx)
+            body.append('\tsame_addr = 1; buf = (uint8_t *) buf_alloc(%d);' % mx)
         else:
-            body.append('\tsame_addr = 0; buf = (uint8_t *) calloc(1, %d);' % h['buf'])
+            body.append('\tsame_addr = 0; buf = (uint8_t *) buf_alloc(%d);' % h['buf'])
         body.append('\teager = %d;' % (1 if h.get('eager') else 0))
         body.append('\t%sinit(&sctx, buf, %d, cbs, NULL);' % (prefix, h['buf']))
         # fields barectf_init() documents nothing about and which the tracer writes before reading them once the
@@ -303,6 +366,37 @@ def build_impl(cfg, s, hists, workdir, sanitize=True, prefix='barectf_', fprefix
     if rc != 0:
         return None, 'link failed: ' + out[-1500:], files
     return os.path.join(workdir, 'run'), None, files
+
+
+def build_store_probe(workdir, fprefix='barectf'):
+    """Second executable from the same generated source and glue (after build_impl): no sanitizer, glue compiled with
+    STORE_PROBE (write-protected buffer arena, fault handler sampling the in-tracing-section flag at every store)."""
+    rc, out = bt.cc(['-ansi', '-pedantic', '-O1', '-g', '-c', fprefix + '.c', '-o', 'tracer_np.o'], cwd=workdir)
+    if rc != 0:
+        return None, 'generated source does not compile: ' + out[-800:]
+    rc, out = bt.cc(['-O0', '-g', '-w', '-D_GNU_SOURCE', '-DSTORE_PROBE', '-c', 'glue.c', '-o', 'glue_sp.o'], cwd=workdir)
+    if rc != 0:
+        return None, 'store probe glue does not compile: ' + out[-800:]
+    rc, out = bt.cc(['tracer_np.o', 'glue_sp.o', '-o', 'run_sp'], cwd=workdir)
+    if rc != 0:
+        return None, 'store probe link failed: ' + out[-800:]
+    return os.path.join(workdir, 'run_sp'), None
+
+
+def run_store_probe(exe, nh):
+    """Per history: (stores observed, stores with the flag reading 0, index of the first offending call, stdout tokens) or an error string."""
+    def one(i):
+        try:
+            p = subprocess.run([exe, str(i)], capture_output=True, text=True, timeout=120)
+        except subprocess.TimeoutExpired:
+            return 'timeout'
+        m = re.search(r'STOREPROBE (-?\d+) (-?\d+) (-?\d+)', p.stderr)
+        if p.returncode != 0 or not m:
+            return 'rc %s: %s' % (p.returncode, p.stderr[-200:])
+        toks = [int(t) for t in p.stdout.split()] if p.stdout.strip() else []
+        return (int(m.group(1)), int(m.group(2)), int(m.group(3)), toks)
+    with ThreadPoolExecutor(max_workers=16) as ex:
+        return list(ex.map(one, range(nh)))
 
 
 def run_impl(exe, nh):
